@@ -232,8 +232,9 @@ class Fill(Doc):
         propagate_broken = False
         for doc in self.docs:
             if isinstance(doc, AlwaysBreak):
+                # Keep the wrapper: the item itself must still
+                # be laid out in break mode.
                 propagate_broken = True
-                doc = doc.doc
 
             if doc is NIL:
                 continue
